@@ -398,10 +398,32 @@ def extract_data_subscript(repo):
     t, n2 = re.subn(r'\barray\s*\.\s*push_back\s*\((?:[^()]|\([^()]*\))*\)\s*;', 'verif_n++;', t)
     t, n3 = re.subn(r'\bstd::list\s*<\s*Data\s*>\s*::\s*iterator\s+(\w+)\s*=\s*array\s*\.\s*begin\s*\(\s*\)\s*;', r'size_t \1 = 0;', t)
     t, n4 = re.subn(r'\breturn\s*\*\s*(\w+)\s*;', r'DEREF(\1, index); return;', t)
-    if not (n3 == 1 and n4 == 1):
-        raise rules.ExtractionError('Data::operator[](size_t): iterator definition / return *iterator not found exactly once')
+    # further std::list operations a rewrite of this function plausibly uses
+    t, n5 = re.subn(r'\breturn\s+array\s*\.\s*back\s*\(\s*\)\s*;', 'DEREF(verif_n - 1, index); return;', t)
+    t, n6 = re.subn(r'\breturn\s+array\s*\.\s*front\s*\(\s*\)\s*;', 'DEREF((size_t)0, index); return;', t)
+    while True:
+        mm = re.search(r'\barray\s*\.\s*(insert|resize)\s*\(', t)
+        if not mm:
+            break
+        cl = rules.match_close(t, mm.end() - 1)
+        args = rules._split_args(t[mm.end():cl])
+        semi = t.index(';', cl)
+        if t[cl + 1:semi].strip():
+            raise rules.ExtractionError('Data::operator[](size_t): result of array.%s used' % mm.group(1))
+        if mm.group(1) == 'insert':
+            if len(args) != 3 or not re.match(r'^array\s*\.\s*end\s*\(\s*\)$', args[0].strip()):
+                raise rules.ExtractionError('Data::operator[](size_t): array.insert(...) outside the rules (only insert(array.end(), count, value))')
+            rep = 'verif_n += (%s);' % args[1].strip()
+        else:
+            if len(args) not in (1, 2):
+                raise rules.ExtractionError('Data::operator[](size_t): array.resize(...) outside the rules')
+            rep = 'verif_n = (%s);' % args[0].strip()
+        t = t[:mm.start()] + rep + t[semi + 1:]
+    t = re.sub(r'\bstd::advance\s*\(\s*(\w+)\s*,\s*([^;]*?)\)\s*;', r'\1 += (\2);', t)
+    if n3 > 1 or (n4 + n5 + n6) < 1:
+        raise rules.ExtractionError('Data::operator[](size_t): no element is returned through an iterator / back() / front(), or several iterators')
     m = re.search(r'size_t (\w+) = 0;', t)
-    it = m.group(1)
+    it = m.group(1) if m else '__none__'
     # loop contracts
     def while_contract(mm):
         cond = mm.group(1)
